@@ -47,6 +47,8 @@ class Repo:
         self.classes: dict[str, ClassInfo] = {}
         self.functions: dict[str, tuple[str, ast.FunctionDef]] = {}
         self.module_consts: dict[str, dict[str, ast.expr]] = {}
+        self.mod_functions: dict[str, dict[str, ast.FunctionDef]] = {}
+        self.imports: dict[str, dict[str, tuple[str, str]]] = {}   # module -> alias -> (defining module, name)
         for p in sorted((self.root / "black_it").rglob("*.py")):
             rel = str(p.relative_to(self.root))
             src = p.read_text()
@@ -62,6 +64,11 @@ class Repo:
                     self.classes[st.name] = ClassInfo(rel, st)
                 elif isinstance(st, ast.FunctionDef):
                     self.functions[st.name] = (rel, st)
+                    self.mod_functions.setdefault(rel, {})[st.name] = st
+                elif isinstance(st, ast.ImportFrom) and st.module and st.module.startswith("black_it") and st.level == 0:
+                    target = st.module.replace(".", "/") + ".py"
+                    for al in st.names:
+                        self.imports.setdefault(rel, {})[al.asname or al.name] = (target, al.name)
                 elif isinstance(st, ast.Assign) and len(st.targets) == 1 and isinstance(st.targets[0], ast.Name):
                     consts[st.targets[0].id] = st.value
                 elif isinstance(st, ast.AnnAssign) and isinstance(st.target, ast.Name) and st.value is not None:
